@@ -290,7 +290,9 @@ def make_violations(hist: Sequence[str], order: Sequence[str], bad: Sequence[str
         mh = minimise(hist, order, inv)
         other = ORDERS[1] if tuple(order) == ORDERS[0] else ORDERS[0]
         dep = '' if inv in check_history(mh, other)[0] else f'/only-order-{"".join(order)}'
-        sig = f'{inv}/{">".join(mh)}{dep}' if '@' not in inv else inv.replace('@', '/')
+        # (relations kept by NAME do not depend on the order in which the events' text was appended: the minimal history is named as a set)
+        key = '+'.join(sorted(mh)) if inv.startswith('I8') and len(mh) > 2 else '>'.join(mh)
+        sig = f'{inv}/{key}{dep}' if '@' not in inv else inv.replace('@', '/')
         out.append(core.violation(sig, f'history {list(hist)} (minimal: {mh}) analysed in order p,{",".join(order)} breaks {inv}',
                                   {'kind': 'history', 'hist': list(hist), 'order': list(order)}))
     return out
